@@ -588,8 +588,30 @@ pub const NO_PARA_TEXTS: [&str; 8] = ["", "# c\n", "\n\n", "# c\n\n# d\n", "\n# 
 /// paragraph whose fields are all removed, or 100 = add_paragraph() at the end, 101 = insert_paragraph(0)
 pub const EMPTIED: [(&str, usize); 6] = [("A: 1\n\nB: 2\n\nC: 3\n", 1), ("A: 1\n\nB: 2\n", 0), ("A: 1\n\nB: 2\n", 1), ("A: 1\n# c\n", 100), ("# l\nA: 1\n x\n\nB: 2", 101), ("A: 1\n", 0)];
 
+/// documents in which the sort keys TIE: identical paragraphs, paragraphs equal under the paragraph order but different
+/// otherwise (both input orders), a paragraph without the key field between two with it, repeated field names (equal under
+/// the by-name entry orders) with different values in both orders
+pub const TIE_TEXTS: [&str; 8] = [
+    "A: 1\n\nA: 1\n",
+    "A: 1\nB: x\n\nA: 1\nB: y\n",
+    "A: 1\nB: y\n\nA: 1\nB: x\n",
+    "A: 1\n\nB: 2\n\nA: 1\nC: 3\n",
+    "B: 2\n\nC: 3\n\nB: 1\n",
+    "A: 2\nA: 1\n",
+    "B: 1\nA: 1\nB: 0\n",
+    "A: 1\nA: 1\n\nA: 1\n",
+];
+pub fn n_fixed_texts() -> usize {
+    NO_PARA_TEXTS.len() + EMPTIED.len() + TIE_TEXTS.len()
+}
+
 fn check_fixed(ti: usize, c: &Cfg) -> Vec<Viol> {
     let mut out = vec![];
+    if ti >= NO_PARA_TEXTS.len() + EMPTIED.len() {
+        let Some(t) = TIE_TEXTS.get(ti - NO_PARA_TEXTS.len() - EMPTIED.len()) else { return out };
+        let Ok(d) = Deb822::from_str(t) else { return out };
+        return check_text(t, &d, c);
+    }
     let (text, d) = if ti < NO_PARA_TEXTS.len() {
         let Ok(d) = Deb822::from_str(NO_PARA_TEXTS[ti]) else { return out };
         (NO_PARA_TEXTS[ti], d)
@@ -935,7 +957,7 @@ impl Prop for C07 {
         "exploration"
     }
     fn rule(&self, _t: Tier) -> String {
-        "documents: every layout vector with <= k deviations on 5 skeletons (values made unique per field; the final newline is a free dimension on top of the k deviations), crossed with the FULL product of 864 settings (minus the 240 that combine a line-restructuring formatter with a value-dependent comparator) (4 indentations x immediate_empty_line x 3 one-liner limits x 3 paragraph orders x 3 entry orders x 4 formatters); each case runs Deb822::wrap_and_sort (with Paragraph::wrap_and_sort plugged in), re-reads the result, applies it a second time and cross-checks the Paragraph- and Entry-level entry points; control wrappers: 8 control files x 24 settings x {Control, Source/Binary}, and every ordered selection of 2 and 3 paragraphs out of 6 kinds (two source paragraphs, two binaries of the same name, another binary, a paragraph of neither kind: 150 files) x both empty-first-line settings; non-trivial = case whose document has a deviation or whose setting differs from the default".into()
+        "documents: every layout vector with <= k deviations on 5 skeletons (values made unique per field; the final newline is a free dimension on top of the k deviations), crossed with the FULL product of 864 settings (minus the 240 that combine a line-restructuring formatter with a value-dependent comparator) (4 indentations x immediate_empty_line x 3 one-liner limits x 3 paragraph orders x 3 entry orders x 4 formatters); each case runs Deb822::wrap_and_sort (with Paragraph::wrap_and_sort plugged in), re-reads the result, applies it a second time and cross-checks the Paragraph- and Entry-level entry points; control wrappers: 8 control files x 24 settings x {Control, Source/Binary}, and every ordered selection of 2 and 3 paragraphs out of 6 kinds (two source paragraphs, two binaries of the same name, another binary, a paragraph of neither kind: 150 files) x both empty-first-line settings; fixed documents x all settings: 8 without paragraphs / with comment lines inside values, 6 live ones with a field-less paragraph, 8 whose sort keys tie (identical paragraphs, equal keys with different content in both orders, repeated field names); non-trivial = case whose document has a deviation or whose setting differs from the default".into()
     }
     fn bounds(&self, t: Tier) -> Value {
         let sk: Vec<Value> = c07_skels().iter().map(|s| json!({"skeleton": s, "k": c07_k(t, *s), "documents": kdev_count(&menus(*s), c07_k(t, *s))})).collect();
@@ -988,7 +1010,7 @@ impl Prop for C07 {
                     kdev_shard(&m, 1, Some(i), &mut go);
                 }
             }
-            for text in 0..NO_PARA_TEXTS.len() + EMPTIED.len() {
+            for text in 0..n_fixed_texts() {
                 product(&cfg_menus(), &mut |cv| {
                     f(&C07Case::Fixed { text, cfg: cfg_from(cv) });
                 });
